@@ -3,7 +3,7 @@
     [tr] is the transcendental function of the kernel (exp, or powf(., degree)). *)
 From Coq Require Import List NArith Reals Permutation Floats.
 From Flocq Require Import Core BinarySingleNaN.
-From LinfaVerif Require Import Common.Num Common.NdSum C06.Model C06.Dy C06.Proofs C06.ProofsViews C06.ProofsPsd C06.ProofsSingle C06.ProofsB64 C06.ProofsSparse.
+From LinfaVerif Require Import Common.Num Common.NdSum C06.Model C06.ModelLW C06.ModelKnn C06.Dy C06.Proofs C06.ProofsViews C06.ProofsPsd C06.ProofsSingle C06.ProofsB64 C06.ProofsSparse C06.ProofsLW C06.ProofsKnn.
 Import ListNotations.
 
 (** ** kernel matrices *)
@@ -58,6 +58,23 @@ Proof. intros nbrs i j Hi Hj. rewrite !adjacency_In by assumption. intuition. Qe
 Theorem adjacency_has_diagonal : forall (nbrs : list (list nat)) i,
   i < length nbrs -> In i (nth i (adjacency nbrs) []).
 Proof. intros nbrs i Hi. apply adjacency_In; auto. Qed.
+
+(** ... up to ties: the sparse pattern P accepted by the certificate check of the run (the oracle of bit 8)
+    is exactly what equidistant neighbours allow - there are answers to "the k+1 nearest records of record
+    i" (k+1 different records, none outside the list strictly closer than one inside it; [dd] is the
+    distance the index compares) whose symmetrised union plus the diagonal is P - and nothing more: every
+    such pattern is accepted *)
+Theorem adjacency_iff_up_to_ties : forall F (o : NumOps F) n (dd : nat -> nat -> F) k nbrs P,
+  pattern_cert_ok o n dd k nbrs P = true ->
+  length nbrs = n /\
+  (forall i, i < n -> is_knn_answer o n dd i (S k) (nth i nbrs [])) /\
+  (forall i j, i < n -> j < n -> (In j (nth i P []) <-> i = j \/ In j (nth i nbrs []) \/ In i (nth j nbrs []))).
+Proof. exact (@pattern_cert_sound). Qed.
+
+Theorem adjacency_up_to_ties_complete : forall F (o : NumOps F) n (dd : nat -> nat -> F) k nbrs,
+  length nbrs = n -> (forall i, i < n -> is_knn_answer o n dd i (S k) (nth i nbrs [])) ->
+  pattern_cert_ok o n dd k nbrs (adjacency nbrs) = true.
+Proof. exact (@pattern_cert_complete). Qed.
 
 (** the values stored by the sparse kernel are the kernel entries of their positions *)
 Theorem sparse_values : forall F (o : NumOps F) tr m (X : list (list F)) (nbrs : list (list nat)) i,
@@ -181,3 +198,95 @@ Theorem single_linkage_components : forall n (D : nat -> nat -> R) d (steps : li
   hier R_ops (CDist d) steps n = Some L ->
   forall i j, i < n -> j < n -> (nth i L 0 = nth j L 0 <-> connected n D d i j).
 Proof. exact single_components. Qed.
+
+(** ** agglomerative clustering: the Lance-Williams recurrence (C06/ModelLW.v)
+
+    [lw_run m (tinit D n) (init_clusters n) n ms] merges the pairs [ms] of live cluster ids one after the
+    other (in any order, not only closest pairs) and updates the dissimilarities by kodama's recurrence. *)
+
+(** single linkage: the recurrence holds the smallest dissimilarity between the two member lists *)
+Theorem lance_williams_single_is_min : forall (D : nat -> nat -> R) n ms T cl,
+  (forall a b, D a b = D b a) ->
+  lw_run R_ops LSingle (tinit D n) (init_clusters n) n ms = Some (T, cl) ->
+  forall x mx y my, In (x, mx) cl -> In (y, my) cl -> x <> y ->
+  (exists a b, In a mx /\ In b my /\ D a b = tget R_ops T x y) /\
+  (forall a b, In a mx -> In b my -> (tget R_ops T x y <= D a b)%R).
+Proof. intros D n ms T cl S H. exact (lw_single_is_min D S n ms T cl H). Qed.
+
+(** complete linkage: the largest one *)
+Theorem lance_williams_complete_is_max : forall (D : nat -> nat -> R) n ms T cl,
+  (forall a b, D a b = D b a) ->
+  lw_run R_ops LComplete (tinit D n) (init_clusters n) n ms = Some (T, cl) ->
+  forall x mx y my, In (x, mx) cl -> In (y, my) cl -> x <> y ->
+  (exists a b, In a mx /\ In b my /\ D a b = tget R_ops T x y) /\
+  (forall a b, In a mx -> In b my -> (D a b <= tget R_ops T x y)%R).
+Proof. intros D n ms T cl S H. exact (lw_complete_is_max D S n ms T cl H). Qed.
+
+(** average linkage: the mean of all dissimilarities between a member of one and a member of the other *)
+Theorem lance_williams_average_is_mean : forall (D : nat -> nat -> R) n ms T cl,
+  (forall a b, D a b = D b a) ->
+  lw_run R_ops LAverage (tinit D n) (init_clusters n) n ms = Some (T, cl) ->
+  forall x mx y my, In (x, mx) cl -> In (y, my) cl -> x <> y ->
+  mx <> [] /\ my <> [] /\
+  (tget R_ops T x y * INR (length mx) * INR (length my) = psum D mx my)%R.
+Proof. intros D n ms T cl S H. exact (lw_average_is_mean D S n ms T cl H). Qed.
+
+(** every linkage method, every arithmetic (binary64 included), every tolerance of the comparison: a
+    dendrogram of n-1 steps that the run's check [lw_valid] accepts is well formed, so the replay of
+    linfa-hierarchical never looks up a missing cluster, returns a labelling for every criterion, and a
+    requested count k >= 1 yields exactly min(k, n) clusters (replay_partition describes the labelling) *)
+Theorem linkage_replay_partition : forall F (o : NumOps F) close le pre m (T : tbl) n (steps : list (@step F)),
+  lw_valid o close le pre m T (init_clusters n) n steps = true -> length steps = n - 1 ->
+  wf_steps (seq 0 n) n steps = true /\
+  (forall c, exists L, hier o c steps n = Some L) /\
+  (forall k, 1 <= k -> exists L, hier o (CNum k) steps n = Some L /\ is_clustering n (Nat.min k n) L).
+Proof.
+  intros F o close le pre m T n steps V Len. split; [eapply lw_valid_wf_init; eauto|].
+  eapply lw_valid_replay; eauto.
+Qed.
+
+(** single linkage, end to end over the reals: a dendrogram accepted by the exact check (reported heights
+    equal the recurrence, no live pair closer) cut at a threshold gives the connected components of the
+    below-threshold graph - the validity hypothesis of single_linkage_components is what the check decides *)
+Theorem single_linkage_lw_components : forall n (D : nat -> nat -> R) d (steps : list (@step R)) L,
+  (forall a b, D a b = D b a) ->
+  lw_valid R_ops Reqb Rleb idf LSingle (tinit D n) (init_clusters n) n steps = true ->
+  length steps = n - 1 -> 1 <= n ->
+  hier R_ops (CDist d) steps n = Some L ->
+  forall i j, i < n -> j < n -> (nth i L 0 = nth j L 0 <-> connected n D d i j).
+Proof. exact lw_single_components. Qed.
+
+(** complete linkage: in the threshold clustering of an accepted dendrogram any two different samples of
+    one cluster are closer than the threshold (cluster diameters stay below it) *)
+Theorem complete_linkage_diameter : forall n (D : nat -> nat -> R) d (steps : list (@step R)) L,
+  (forall a b, D a b = D b a) ->
+  lw_valid R_ops Reqb Rleb idf LComplete (tinit D n) (init_clusters n) n steps = true ->
+  hier R_ops (CDist d) steps n = Some L ->
+  forall i j, i < n -> j < n -> i <> j -> nth i L 0 = nth j L 0 -> (D i j < d)%R.
+Proof. exact lw_complete_diameter. Qed.
+
+(** single, complete, average and weighted linkage never lower a dissimilarity below the height of the merge
+    (the recurrence is monotone) ... *)
+Theorem lance_williams_monotone :
+  lw_monotone LSingle /\ lw_monotone LComplete /\ lw_monotone LAverage /\ lw_monotone LWeighted.
+Proof. exact (conj mono_single (conj mono_complete (conj mono_average mono_weighted))). Qed.
+
+(** ... so a dendrogram of such a method accepted by the exact check is sorted by dissimilarity, and cutting it
+    at a threshold performs exactly the merges whose dissimilarity is below the threshold (replay_threshold
+    without a separate sortedness hypothesis) *)
+Theorem linkage_threshold_all_merges : forall m n (D : nat -> nat -> R) d (steps : list (@step R)),
+  lw_monotone m -> (forall a b, D a b = D b a) ->
+  lw_valid R_ops Reqb Rleb idf m (tinit D n) (init_clusters n) n steps = true ->
+  steps_sorted steps /\
+  replay R_ops (CDist d) steps (init_clusters n) n =
+  merge_all (filter (fun s => Rltb (s_d s) d) steps) (init_clusters n) n.
+Proof.
+  intros m n D d steps Mo S V. split; [eapply lw_valid_sorted; eauto|eapply lw_valid_threshold; eauto].
+Qed.
+
+(** the model's own agglomeration (the transliteration of kodama::primitive that the run compares with
+    kodama bit for bit): whenever it returns a dendrogram, for any of the seven methods, that dendrogram
+    has n-1 well-formed steps - so replay_total / replay_count / replay_partition apply to it *)
+Theorem prim_linkage_wellformed : forall F (o : NumOps F) m n (cond : list F) (ss : list (@step F)),
+  prim_linkage o m n cond = Some ss -> wf_steps (seq 0 n) n ss = true /\ length ss = n - 1.
+Proof. exact (@prim_linkage_wf). Qed.
